@@ -51,14 +51,20 @@ func forwardTaint(fn *ssa.Function, isSource func(v ssa.Value) bool) (tainted ma
 						tainted[u] = true
 						work = append(work, u)
 					}
-					if bigMutators[m] && len(u.Call.Args) > 0 {
-						recv := u.Call.Args[0]
+					if bigMutators[m] && len(callArgs(u)) > 0 {
+						recv := callArgs(u)[0]
 						if !tainted[recv] {
 							tainted[recv] = true
 							work = append(work, recv)
 						}
 					}
 				case isCallTo(u, "common.IntHashSha256"):
+					if !tainted[u] {
+						tainted[u] = true
+						work = append(work, u)
+					}
+				case exponentHelperArg(u) >= 0 && callArgs(u)[exponentHelperArg(u)] == v:
+					// the value-or-its-digest helper: its result stands for the value like the inline form
 					if !tainted[u] {
 						tainted[u] = true
 						work = append(work, u)
@@ -120,6 +126,61 @@ func init() {
 		Rule{ID: "C04.d", Explain: "the ProofD built by CreateProof sets each field from its tabled source (symbolic terms for the e and v responses).",
 			Run: func(P *Program, R *Report) { proofDLiteralRule(P, R) }},
 	)
+}
+
+// exponentHelperArg recognises a call to a function every one of whose results is one of its parameters x or
+// IntHashSha256(x.Bytes()) for the same x (the hash-if-oversized step extracted into a helper); it returns the
+// index of x in the call's arguments, -1 otherwise. Under which condition the digest is taken is C01.f/C04.g.
+func exponentHelperArg(c *ssa.Call) int {
+	fn := staticCallee(c)
+	if fn == nil || len(fn.Blocks) == 0 || fn.Signature.Results().Len() != 1 {
+		return -1
+	}
+	idx := -1
+	ok := true
+	n := 0
+	var leaf func(v ssa.Value, seen map[ssa.Value]bool)
+	leaf = func(v ssa.Value, seen map[ssa.Value]bool) {
+		if seen[v] {
+			return
+		}
+		seen[v] = true
+		switch x := v.(type) {
+		case *ssa.Phi:
+			for _, e := range x.Edges {
+				leaf(e, seen)
+			}
+			return
+		case *ssa.Parameter:
+			for i, p := range fn.Params {
+				if p == x {
+					if idx >= 0 && idx != i {
+						ok = false
+					}
+					idx = i
+					n++
+					return
+				}
+			}
+		case *ssa.Call:
+			if isCallTo(x, "common.IntHashSha256") {
+				if bc, isC := origin(callArgs(x)[0]).(*ssa.Call); isC && bigMethod(bc) == "Bytes" {
+					leaf(callArgs(bc)[0], seen)
+					return
+				}
+			}
+		}
+		ok = false
+	}
+	for _, b := range fn.Blocks {
+		if r, isR := b.Instrs[len(b.Instrs)-1].(*ssa.Return); isR && len(r.Results) == 1 {
+			leaf(r.Results[0], map[ssa.Value]bool{})
+		}
+	}
+	if !ok || n == 0 || idx < 0 {
+		return -1
+	}
+	return idx
 }
 
 func isAttrLoad(v ssa.Value) bool {
@@ -199,7 +260,7 @@ func attributeFlowRule(P *Program, R *Report) {
 				n := calleeName(u)
 				if n == "rangeproof.(*ProofStructure).CommitmentsFromSecrets" {
 					// (pk, m, mRandomizer): m raw attribute at index i with its own randomiser
-					a := u.Call.Args
+					a := callArgs(u)
 					ok = len(a) == 4 && isAttrLoad(a[2]) && desc(a[3]) == dpb+".attrRandomizers["+attrIndexOf(a[2])+"]"
 					why = "range-proof committer gets attribute[" + attrIndexOf(a[2]) + "] with randomiser " + desc(a[3])
 				} else if bigMethod(u) == "Bytes" {
@@ -242,11 +303,11 @@ func attributeFlowRule(P *Program, R *Report) {
 				if !calleeIs(x, "slices.Repeat") {
 					return
 				}
-				if seq, okS := seqOf(x.Call.Args[0]); okS && len(seq) == 1 && seq[0].D == "call:big.NewInt(0)" {
+				if seq, okS := seqOf(callArgs(x)[0]); okS && len(seq) == 1 && seq[0].D == "call:big.NewInt(0)" {
 					n++
 				} else {
 					ok = false
-					notes = append(notes, "slots initialised from "+desc(x.Call.Args[0]))
+					notes = append(notes, "slots initialised from "+desc(callArgs(x)[0]))
 				}
 			default:
 				return
@@ -317,7 +378,7 @@ func completenessRule(P *Program, R *Report) {
 		allInstrs(fn, func(i ssa.Instruction) {
 			if st, ok := i.(*ssa.Store); ok {
 				if fa, ok := st.Addr.(*ssa.FieldAddr); ok && desc(fa.X) == "new:gabi.ProofD" {
-					fieldMap[fieldName(fa.X.Type(), fa.Field)] = st.Val
+					fieldMap[faName(fa)] = st.Val
 				}
 			}
 		})
@@ -375,8 +436,8 @@ func completenessRule(P *Program, R *Report) {
 	allInstrs(bf, func(i ssa.Instruction) {
 		if st, ok := i.(*ssa.Store); ok {
 			if fa, ok := st.Addr.(*ssa.FieldAddr); ok && desc(fa.X) == nb {
-				got[fieldName(fa.X.Type(), fa.Field)] = desc(st.Val)
-				gotV[fieldName(fa.X.Type(), fa.Field)] = st.Val
+				got[faName(fa)] = desc(st.Val)
+				gotV[faName(fa)] = st.Val
 			}
 		}
 	})
@@ -385,7 +446,7 @@ func completenessRule(P *Program, R *Report) {
 		if f == "undisclosedAttributes" && !ok {
 			// the complement helper in another shape (a method of the credential): same helper, given the disclosed list
 			if c, isCall := gotV[f].(*ssa.Call); isCall && staticCallee(c) != nil && staticCallee(c) == P.Func("gabi.getUndisclosedAttributes") {
-				for _, a := range c.Call.Args {
+				for _, a := range callArgs(c) {
 					if desc(a) == "arg#1" {
 						ok = true
 					}
@@ -484,7 +545,7 @@ func complementBody(P *Program, R *Report, rule, key string, fn *ssa.Function, d
 			return
 		}
 		nApp++
-		tail, okT := seqTail(c.Call.Args[1], 0, map[ssa.Value]bool{})
+		tail, okT := seqTail(callArgs(c)[1], 0, map[ssa.Value]bool{})
 		elemOK := okT && len(tail) == 1 && tail[0].Kind == "elem" && (tail[0].D == "#i" || tail[0].D == "rangekey(makeslice)")
 		R.decide(rule, key+":appends-index", "the appended element is the loop index itself", elemOK, "appends "+seqString(tail), P.Pos(c.Pos()))
 		// controlling conditions inside the loop
@@ -573,7 +634,7 @@ func proofDLiteralRule(P *Program, R *Report) {
 		if !ok || desc(fa.X) != "new:gabi.ProofD" {
 			return
 		}
-		f := fieldName(fa.X.Type(), fa.Field)
+		f := faName(fa)
 		seen[f] = true
 		c := kDPBCreateProof + ":ProofD." + f
 		switch f {
@@ -630,7 +691,7 @@ func attributesReadOnlyRule(P *Program, R *Report) {
 		switch x := v.(type) {
 		case *ssa.UnOp:
 			if fa, ok := x.X.(*ssa.FieldAddr); ok && x.Op == token.MUL {
-				return attrFields[typeKey(fa.X.Type())+"."+fieldName(fa.X.Type(), fa.Field)]
+				return attrFields[faType(fa)+"."+faName(fa)]
 			}
 		case *ssa.Slice:
 			return isAttrList(x.X, depth+1)
@@ -643,6 +704,7 @@ func attributesReadOnlyRule(P *Program, R *Report) {
 		}
 		return false
 	}
+	attrParams := map[*ssa.Parameter]bool{}
 	isAttrElem := func(v ssa.Value) bool {
 		seen := map[ssa.Value]bool{}
 		var walk func(x ssa.Value) bool
@@ -668,10 +730,30 @@ func attributesReadOnlyRule(P *Program, R *Report) {
 						return isAttrList(r.X, 0)
 					}
 				}
+			case *ssa.Parameter:
+				return attrParams[y]
 			}
 			return false
 		}
 		return walk(v)
+	}
+	// an attribute value handed to a helper of the module is still the attribute value inside the helper
+	for round := 0; round < 4; round++ {
+		for _, fn := range fns {
+			for _, c := range callsIn(fn) {
+				g := staticCallee(c)
+				if g == nil || len(g.Blocks) == 0 || !inModuleFn(g) {
+					continue
+				}
+				args := callArgs(c)
+				off := len(args) - len(g.Params)
+				for k, a := range args {
+					if k-off >= 0 && k-off < len(g.Params) && isBigIntPtr(a.Type()) && isAttrElem(a) {
+						attrParams[g.Params[k-off]] = true
+					}
+				}
+			}
+		}
 	}
 	nUses := 0
 	bad := map[string]string{}
@@ -687,7 +769,7 @@ func attributesReadOnlyRule(P *Program, R *Report) {
 				if m == "" {
 					return
 				}
-				for k, a := range x.Call.Args {
+				for k, a := range callArgs(x) {
 					if isAttrElem(a) {
 						nUses++
 						if k == 0 && bigMutators[m] {
